@@ -325,6 +325,15 @@ VX_KX_PAIRS = {
     'lexops/binary_number_literal': [('lexscan', 'verif_lex::lexscan_counts4')],
     'lexops/asm_text_literal': [('lexcomplex', 'verif_lex::lexcomplex_asm_text_literal')],
     'lexops/unicode_identifier': [('lexcomplex', 'verif_lex::lexcomplex_unicode_identifier')],
+    'lexops/consume_pascal_str': [('lexcomplex', 'verif_lex::lexcomplex_text_literal3')],
+    'lexops/consume_escaped_chars': [('lexcomplex', 'verif_lex::lexcomplex_text_literal3')],
+    'lexops/text_literal': [('lexcomplex', 'verif_lex::lexcomplex_text_literal3')],
+    'lexops/find_block_comment_end': [('lexcomplex', 'verif_lex::lexcomplex_block_brace4')],
+    'lexops/_block_comment': [('lexcomplex', 'verif_lex::lexcomplex_block_brace4')],
+    'lexops/block_comment': [('lexcomplex', 'verif_lex::lexcomplex_block_brace4')],
+    'lexops/block_comment_alt': [('lexcomplex', 'verif_lex::lexcomplex_block_brace4')],
+    'lexops/line_comment': [('lexcomplex', 'verif_lex::lexcomplex_line_comment5'), ('lexcomplex', 'verif_lex::lexcomplex_line_comment_kind_by_lf')],
+    'lexops/ampersand': [('lexcomplex', 'verif_lex::lexcomplex_misc')],
     'lexloop/count_leading_whitespace': [('lexscan', 'verif_lex::lexscan_ws_ascii4'), ('lexscan', 'verif_lex::lexscan_ws_ideographic')],
     'wsarith/ReconstructionSettings::new': [('settings', 'verif_settings::settings_recon_spaces_2_2'), ('settings', 'verif_settings::settings_recon_tabs_4_3')],
 }
